@@ -761,9 +761,14 @@ func staleBufferRun(c *Ctx, seed int64, variant int) (problems []string, deadloc
 		srv := fakeapi.New()
 		srv.Set(1, 1, labSets[1], 1)
 		slow := false
+		gate := make(chan struct{})
 		f := filter.FN(func(o metav1.Object) bool {
 			if slow && o.GetName() == Str(3) {
-				time.Sleep(500 * time.Millisecond)
+				// the controller stays busy here until the second list has completed
+				select {
+				case <-gate:
+				case <-time.After(3 * time.Second):
+				}
 			}
 			return true
 		})
@@ -815,6 +820,8 @@ func staleBufferRun(c *Ctx, seed int64, variant int) (problems []string, deadloc
 			}
 		}
 		slow = false
+		sched.Settle() // the list result is now waiting for the controller, next to the buffered event
+		close(gate)
 		time.Sleep(600 * time.Millisecond)
 		sched.Settle()
 		ls, _ := srv.Calls()
